@@ -33,15 +33,37 @@ import (
 
 // sigParse is the observable outcome of ParseVector(s) for version api.
 func sigParse(api *probe.API, s string) string {
+	sig, _ := sigParseObj(api, s)
+	return sig
+}
+
+// sigParseObj also hands out the returned object (nil when rejected), so that callers can keep it
+// and verify later that it still is what it was.
+func sigParseObj(api *probe.API, s string) (string, probe.Obj) {
 	o, err, p := api.SafeParse(s)
 	if p != nil {
-		return "panic:" + p.Val
+		return "panic:" + p.Val, nil
 	}
 	if err != nil || o == nil {
 		e := api.Classify(err)
-		return fmt.Sprintf("reject obj-nil=%v %s", o == nil, e.String())
+		return fmt.Sprintf("reject obj-nil=%v %s", o == nil, e.String()), nil
 	}
-	return "accept " + sigObj(api, o)
+	return "accept " + sigObj(api, o), o
+}
+
+// held is an object obtained earlier together with everything observable about it at that time.
+type held struct {
+	api *probe.API
+	o   probe.Obj
+	sig string
+	src string
+}
+
+func (h *held) check(st *c14State, after string) {
+	if got := sigObj(h.api, h.o); got != h.sig {
+		st.mismatch(Violation{Kind: "object-changed-by-a-later-call", Version: h.api.Ver.Name, Steps: []Step{{Op: "parse", S: h.src}, {Op: "parse", S: after}, {Op: "vector"}},
+			Expected: "the object returned for " + h.src + " still is " + h.sig, Observed: got, Detail: map[string]any{"later_call": after}})
+	}
 }
 
 // sigObj is everything observable about an object.
@@ -128,6 +150,18 @@ func c14Alphabet(r *gen.Rand, v *spec.Version) []string {
 	}
 	add(gen.Soup(r))
 	add(gen.Bytes(r))
+	// one single-defect vector per defect kind of C18's injector (every error kind / site of the parser)
+	kinds := map[string]bool{}
+	inject(r, v, base, func(d defect) {
+		k := d.kind + d.site
+		if d.kind == "truncated-inside-group" {
+			k += fmt.Sprint(d.pos % 4)
+		}
+		if !kinds[k] {
+			kinds[k] = true
+			add(d.s)
+		}
+	})
 	return out
 }
 
@@ -253,6 +287,7 @@ func c14Stress(st *c14State, inputs []c14Input, shared [][]probe.Obj, G, procs, 
 			defer wg.Done()
 			r := gen.New(st.seed, "C14", "stress", tag, fmt.Sprint(g))
 			ring := make([]pair, 0, 512)
+			oring := make([]held, 0, 64)
 			prevKey := ""
 			note := func(key string) {
 				st.mu.Lock()
@@ -267,11 +302,21 @@ func c14Stress(st *c14State, inputs []c14Input, shared [][]probe.Obj, G, procs, 
 			}
 			for k := 0; k < opsPer; k++ {
 				switch op := r.Intn(16); {
-				case op < 6: // parse a shared input
+				case op < 6: // parse a shared input; keep some of the returned objects and re-verify them later
 					in := &inputs[r.Intn(len(inputs))]
 					api := probe.APIs[in.ver]
-					got := sigParse(api, in.s)
+					got, obj := sigParseObj(api, in.s)
 					note("parse:" + api.Ver.Name + ":" + in.s)
+					if obj != nil {
+						h := held{api, obj, got[len("accept "):], in.s}
+						if len(oring) < cap(oring) {
+							oring = append(oring, h)
+						} else {
+							j := r.Intn(len(oring))
+							oring[j].check(st, in.s)
+							oring[j] = h
+						}
+					}
 					if got != in.base {
 						st.mismatch(Violation{Kind: "result-depends-on-concurrency-or-history", Version: api.Ver.Name, Steps: parseSteps(in.s), Expected: in.base, Observed: got, Detail: map[string]any{"workload": tag, "goroutine": g}})
 					}
@@ -345,6 +390,17 @@ func c14Stress(st *c14State, inputs []c14Input, shared [][]probe.Obj, G, procs, 
 							st.mismatch(Violation{Kind: "own-vector-rejected", Version: v.Name, Steps: parseSteps(vec), Expected: "accepted", Observed: fmt.Sprint(err)})
 							break
 						}
+						if x.ver == spec.V40 {
+							// the v4 oracle is cheap and shares no state with the library: a memo that poisons BOTH the
+							// mutated object's and the freshly parsed object's result is still seen
+							if a, fail := readAll(c, v); fail == "" {
+								wantK := spec.V4Score(spec.V4Effective(a)).K
+								if sc, _ := probe.SafeScore(c, 0); sc != float64(wantK)/10 {
+									st.mismatch(Violation{Kind: "result-depends-on-receiver-history", Version: v.Name, Steps: append(parseSteps(x.vec), Step{Op: "score"}, Step{Op: "set", S: v.Metrics[m].Abv, Val: val}, Step{Op: "score"}), Expected: fmt.Sprintf("Score = %.1f (specification) for %s", float64(wantK)/10, vec), Observed: fmt.Sprint(sc)})
+									break
+								}
+							}
+						}
 						if want := sigObj(api, f); got != want {
 							st.mismatch(Violation{Kind: "result-depends-on-receiver-history", Version: v.Name, Steps: append(parseSteps(x.vec), Step{Op: "score"}, Step{Op: "set", S: v.Metrics[m].Abv, Val: val}, Step{Op: "score"}), Expected: "as for a freshly parsed " + vec + ": " + want, Observed: got})
 							break
@@ -376,6 +432,9 @@ func c14Stress(st *c14State, inputs []c14Input, shared [][]probe.Obj, G, procs, 
 					note("rating")
 				}
 			}
+			for k := range oring {
+				oring[k].check(st, "<end of run>")
+			}
 			for _, p := range ring {
 				if p.s != p.clone {
 					st.mismatch(Violation{Kind: "returned-string-changed-afterwards", Steps: []Step{{Op: "vector"}}, Expected: p.clone, Observed: p.s})
@@ -397,7 +456,7 @@ func c14Stress(st *c14State, inputs []c14Input, shared [][]probe.Obj, G, procs, 
 // c14History: sequential histories hostile to pooled scratch state. With
 // GOMAXPROCS(1) and GC off a sync.Pool hands the previous call's buffer to
 // the next call, so the stale part of the buffer is exactly the previous input.
-func c14History(st *c14State, inputs []c14Input, randomSeqs int, full bool) {
+func c14History(st *c14State, inputs []c14Input, randomSeqs int, full, triples bool) {
 	prev := runtime.GOMAXPROCS(1)
 	defer runtime.GOMAXPROCS(prev)
 	old := debug.SetGCPercent(-1)
@@ -407,10 +466,18 @@ func c14History(st *c14State, inputs []c14Input, randomSeqs int, full bool) {
 		byVer[in.ver] = append(byVer[in.ver], i)
 	}
 	run := func(seq []int) {
+		var kept []held
 		for pos, i := range seq {
 			in := &inputs[i]
-			got := sigParse(probe.APIs[in.ver], in.s)
+			got, obj := sigParseObj(probe.APIs[in.ver], in.s)
 			st.events.Add(1)
+			// every object handed out earlier in this sequence must be untouched by this call
+			for k := range kept {
+				kept[k].check(st, in.s)
+			}
+			if obj != nil && len(kept) < 8 {
+				kept = append(kept, held{probe.APIs[in.ver], obj, got[len("accept "):], in.s})
+			}
 			if got != in.base {
 				var steps []Step
 				for _, j := range seq[:pos+1] {
@@ -436,6 +503,9 @@ func c14History(st *c14State, inputs []c14Input, randomSeqs int, full bool) {
 			}
 		}
 		// triples: complete for v2 (the only version with shared scratch state today), strided elsewhere
+		if !triples {
+			continue
+		}
 		stride := 1
 		if vi != spec.V20 {
 			stride = 7
@@ -710,11 +780,11 @@ func C14Child(mode, tier string, seed int64) {
 		if !quick {
 			n = 60000
 		}
-		c14History(st, inputs, n/scale, true)
+		c14History(st, inputs, n/scale, true, true)
 	} else {
 		// under the race detector a single goroutine has nothing to race with: keep the
 		// sequential histories short there (complete pairs only without the yield pass)
-		c14History(st, inputs, 200/scale+10, mode == "race")
+		c14History(st, inputs, 200/scale+10, mode == "race", false)
 	}
 	for rep := 0; rep < reps; rep++ {
 		for _, cfg := range [][2]int{{4, 2}, {16, 16}, {64, 16}, {16, 2}} {
